@@ -84,6 +84,18 @@ def run(ck: Check):
                 if kind != "line" and n > N - 2 and r.random() < 0.7:
                     continue
                 go(kind, n, core, f"all-subsets-{kind}")
+    # atoms whose CRC-32 / Adler-32 collide (a weakened de-dup key must not drop a candidate)
+    for words in ([b"plumless", b"buckeroo"], [b"plumless", b"buckeroo", b"x", b"y", b"z", b"w"],
+                  [b"a", b"plumless", b"b", b"buckeroo"]):
+        for term in (b"\n", b";"):
+            parts = [w + term for w in words]
+            for core in itertools.chain.from_iterable(itertools.combinations(range(len(parts)), m)
+                                                       for m in range(len(parts) + 1)):
+                f, orc = make_oracle(core, parts)
+                tc = (b"", parts, [True] * len(parts), b"")
+                ex.oracles = [orc]
+                ex.one("minimize", {}, tc, content(tc), lambda k, data, f=f: "Y" if f(data) else "N",
+                       atom="line" if term == b"\n" else "symbol", stream="collision-words")
     for n in (16, 100, 1000, 4096 if not quick else 2048):
         for m in (0, 1, 2, 5, 17):
             if m > n:
